@@ -217,7 +217,35 @@ def gen_redirect(tier, log):
     return out
 
 
-GENERATORS = {"dechunk": gen_dechunk, "flow": gen_flow, "redirect": gen_redirect}
+def gen_faults(tier, log):
+    cfg = os.path.join(SPEC, "Faults.cfg")
+    key = spec_hash("faults" + open(cfg).read(), ["Faults"])
+    os.makedirs(GEN, exist_ok=True)
+    out = os.path.join(GEN, "faults-%s.ndjson" % key)
+    if os.path.exists(out):
+        return out
+    t0 = time.time()
+    dump = out + ".dump"
+    run_tlc_dump("Faults", cfg, dump, workers=4)
+    n = 0
+    tmp = out + ".tmp"
+    with open(dump, errors="replace") as f, open(tmp, "w") as g:
+        for line in f:
+            if line.startswith('"FAULT ') or line.startswith("FAULT "):
+                d = json.loads(unq(line)[6:])
+                d["kind"] = "fault"
+                g.write(json.dumps(d) + "\n")
+                n += 1
+    os.remove(dump)
+    os.rename(tmp, out)
+    for old in os.listdir(GEN):
+        if old.startswith("faults-") and os.path.join(GEN, old) != out:
+            os.remove(os.path.join(GEN, old))
+    log("gen: faults: %d faulty exchanges enumerated by TLC (%.1fs)" % (n, time.time() - t0))
+    return out
+
+
+GENERATORS = {"dechunk": gen_dechunk, "flow": gen_flow, "redirect": gen_redirect, "faults": gen_faults}
 
 
 def ensure(name, tier, log):
